@@ -607,3 +607,12 @@ mod gr_glue { include!(concat!(env!("VERIF_HX_DIR"), "/daemon/event_gr_hx.rs"));
 
 // C01 session-level harness (unit u13)
 mod c01 { include!(concat!(env!("VERIF_HX_DIR"), "/daemon/event_c01_hx.rs")); }
+
+// C16, admission decision (accept_connection and friends)
+mod accept_hx {
+    include!(concat!(env!("VERIF_HX_DIR"), "/daemon/event_accept_hx.rs"));
+}
+
+// C14 per-peer policy assignments (unit u6)
+#[allow(dead_code)]
+mod c14 { include!(concat!(env!("VERIF_HX_DIR"), "/daemon/event_policy_hx.rs")); }
